@@ -334,6 +334,8 @@ func cmdRun(args []string) int {
 	noNative := fs.Bool("no-native", false, "skip native replay/validation (debugging only)")
 	smtlog := fs.String("smtlog", "", "write worker 0's SMT-LIB transcript here")
 	verbose := fs.Bool("v", false, "verbose")
+	maxPaths := fs.Int("max-paths", 0, "override path budget")
+	budgetS := fs.Int("budget-s", 0, "override time budget per harness (seconds)")
 	if len(args) < 1 {
 		fatal("usage: vcheck run <property> [--tier quick|thorough]")
 	}
@@ -392,13 +394,19 @@ func cmdRun(args []string) int {
 		cfg := &interp.Config{
 			Prog: ld.prog, Pkg: pkg, Fn: h.Fn, Sizes: &types.StdSizes{WordSize: 8, MaxAlign: 8},
 			SolverName: *solver, TimeoutMs: *timeoutMs, Workers: *workers, Seed: seed, Trace: *trace,
-			Tier: tierN, ReverseMaps: h.ReverseMaps,
+			Tier: tierN, ReverseMaps: h.ReverseMaps, Progress: true,
 		}
 		if n := h.MaxPaths[*tier]; n > 0 {
 			cfg.MaxPaths = n
 		}
 		if s := h.BudgetS[*tier]; s > 0 {
 			cfg.Deadline = time.Now().Add(time.Duration(s) * time.Second)
+		}
+		if *maxPaths > 0 {
+			cfg.MaxPaths = *maxPaths
+		}
+		if *budgetS > 0 {
+			cfg.Deadline = time.Now().Add(time.Duration(*budgetS) * time.Second)
 		}
 		cfg.Witnesses = 5
 		if tierN == 1 {
@@ -701,7 +709,7 @@ func tail(s string, n int) string {
 func findKnown(k *KnownFile, prop, harness, label string) *KnownFinding {
 	for i := range k.Findings {
 		f := &k.Findings[i]
-		if f.Property == prop && f.Harness == harness && f.Label == label {
+		if f.Property == prop && (f.Harness == "" || f.Harness == harness) && f.Label == label {
 			return f
 		}
 	}
